@@ -8,7 +8,8 @@
 //
 // Ops file: a case is
 //
-//	new cap=<c>
+//	new cap=<c> [elem=val]                   elem=val: the queue is instantiated with the VALUE type velem (below)
+//	                                         instead of *elem; `enq 0 ...` then enqueues velem{}, the zero value of T
 //	t<k> <sleep_us> enq <id> <deadline offset_us relative to the scenario start> <ctx_us>
 //	t<k> <sleep_us> deq <ctx_us>
 //	t<k> <sleep_us> cancel <h> <park_us>     wait until the call holding cancel handle h has been invoked, let it
@@ -59,6 +60,61 @@ type elem struct {
 }
 
 func (e *elem) Delay() time.Duration { return time.Until(e.deadline) }
+
+// velem is the second instantiation: a VALUE type whose zero value is a legitimate element (id 0, its
+// deadline is the start of the process: expired long ago, the earliest of all).  A `== zero` / "nothing
+// there" shortcut anywhere between Enqueue and Dequeue loses, invents or misorders exactly this element.
+type velem struct {
+	id int
+	dl int64 // deadline in ns after procEpoch
+}
+
+var procEpoch = time.Now()
+
+func (e velem) Delay() time.Duration { return time.Until(procEpoch.Add(time.Duration(e.dl))) }
+
+// dq is the queue under test behind either element type
+type dq interface {
+	Enqueue(ctx context.Context, id int, deadline time.Time) error
+	// Dequeue: isNil = a nil *elem was delivered (pointer instantiation only)
+	Dequeue(ctx context.Context) (id int, deadline time.Time, rem int64, isNil bool, err error)
+	VerifLen() int
+	VerifCap() int
+}
+
+type ptrQ struct{ *queue.DelayQueue[*elem] }
+
+func (q ptrQ) Enqueue(ctx context.Context, id int, deadline time.Time) error {
+	return q.DelayQueue.Enqueue(ctx, &elem{id: id, deadline: deadline})
+}
+
+func (q ptrQ) Dequeue(ctx context.Context) (int, time.Time, int64, bool, error) {
+	e, err := q.DelayQueue.Dequeue(ctx)
+	if err != nil || e == nil {
+		return 0, time.Time{}, 0, e == nil, err
+	}
+	return e.id, e.deadline, int64(e.Delay()), false, nil
+}
+
+type valQ struct{ *queue.DelayQueue[velem] }
+
+// zeroDeadline is the deadline of velem{}
+func zeroDeadline() time.Time { return procEpoch }
+
+func (q valQ) Enqueue(ctx context.Context, id int, deadline time.Time) error {
+	if id == 0 {
+		return q.DelayQueue.Enqueue(ctx, velem{})
+	}
+	return q.DelayQueue.Enqueue(ctx, velem{id: id, dl: int64(deadline.Sub(procEpoch))})
+}
+
+func (q valQ) Dequeue(ctx context.Context) (int, time.Time, int64, bool, error) {
+	e, err := q.DelayQueue.Dequeue(ctx)
+	if err != nil {
+		return 0, time.Time{}, 0, false, err
+	}
+	return e.id, procEpoch.Add(time.Duration(e.dl)), int64(e.Delay()), false, nil
+}
 
 // ---------------------------------------------------------------------------------------------
 // generation
@@ -335,7 +391,15 @@ func (g *gen) random(focus string) {
 			return r.Range(90000, 130000)
 		}
 	}
-	g.emit(fmt.Sprintf("new cap=%d", capc))
+	// every fourth case runs on the value-type instantiation; there one element may be velem{}, the
+	// zero value of T (id 0; its deadline is the process start, the offset on the line does not apply)
+	val := r.Chance(25)
+	zeroLeft := val && r.Chance(70)
+	if val {
+		g.emit(fmt.Sprintf("new cap=%d elem=val", capc))
+	} else {
+		g.emit(fmt.Sprintf("new cap=%d", capc))
+	}
 	enqs, deqs := 0, 0
 	for k := 0; k < total; k++ {
 		th := r.Range(1, nthr)
@@ -349,7 +413,11 @@ func (g *gen) random(focus string) {
 		}
 		if wantEnq {
 			enqs++
-			g.emit(fmt.Sprintf("t%d %d enq %d %d %d", th, sl, g.id(), pickSlot(), ctx()))
+			id := g.id()
+			if zeroLeft && r.Chance(35) {
+				id, zeroLeft = 0, false
+			}
+			g.emit(fmt.Sprintf("t%d %d enq %d %d %d", th, sl, id, pickSlot(), ctx()))
 		} else {
 			deqs++
 			g.emit(fmt.Sprintf("t%d %d deq %d", th, sl, ctx()))
@@ -369,6 +437,18 @@ func generate(tier, focus string, out *vlib.Out) {
 	}
 	// NewDelayQueue(c) with c <= 0 is the unbounded queue
 	g.emit("new cap=-1", fmt.Sprintf("t1 0 enq %d %d 100000", g.id(), slot(-1)), fmt.Sprintf("t1 0 enq %d %d 100000", g.id(), slot(-2)),
+		"t2 1000 deq 100000", "t2 0 deq 100000", "t2 0 deq 2000", "end")
+	// the value-type instantiation and the zero value of T (velem{}, id 0, expired since the process
+	// started): accepted, counted, delivered (first: it is the earliest), wakes a parked consumer, frees
+	// its slot for a blocked producer
+	g.emit("new cap=0 elem=val", fmt.Sprintf("t1 0 enq %d %d 100000", g.id(), far(0)), "t1 0 enq 0 0 100000",
+		"t2 1000 deq 100000", "t2 0 deq 3000", "end")
+	g.emit("new cap=2 elem=val", fmt.Sprintf("t1 0 enq %d %d 100000", g.id(), slot(2)), "t1 0 enq 0 0 100000",
+		"t2 1000 deq 100000", "t2 0 deq 100000", "t2 0 deq 2000", "end")
+	g.emit("new cap=1 elem=val", "t1 0 enq 0 0 100000", fmt.Sprintf("t2 1000 enq %d %d %d", g.id(), slot(-1), longCtx),
+		"t3 4000 deq 150000", "t3 0 deq 150000", "end")
+	g.emit("new cap=0 elem=val", fmt.Sprintf("t1 0 deq %d", longCtx), "t2 3000 enq 0 0 100000", "end")
+	g.emit("new cap=-1 elem=val", fmt.Sprintf("t1 0 enq %d %d 100000", g.id(), slot(-1)), fmt.Sprintf("t1 0 enq %d %d 100000", g.id(), slot(1)),
 		"t2 1000 deq 100000", "t2 0 deq 100000", "t2 0 deq 2000", "end")
 	for i := 0; i < nd; i++ {
 		g.directed(i)
@@ -401,11 +481,13 @@ type call struct {
 	ln         int
 }
 
-func parseCase(lines []string) (capc int, calls []*call, err error) {
+func parseCase(lines []string) (capc int, val bool, calls []*call, err error) {
 	if len(lines) == 0 || !strings.HasPrefix(lines[0], "new cap=") {
-		return 0, nil, fmt.Errorf("case must start with new cap=")
+		return 0, false, nil, fmt.Errorf("case must start with new cap=")
 	}
-	capc, _ = strconv.Atoi(strings.TrimPrefix(lines[0], "new cap="))
+	hd := strings.Fields(lines[0])
+	capc, _ = strconv.Atoi(strings.TrimPrefix(hd[1], "cap="))
+	val = len(hd) > 2 && hd[2] == "elem=val"
 	for _, l := range lines[1:] {
 		w := strings.Fields(l)
 		if len(w) == 0 || w[0] == "end" {
@@ -413,7 +495,7 @@ func parseCase(lines []string) (capc int, calls []*call, err error) {
 		}
 		c := &call{line: l}
 		if len(w) < 4 || !strings.HasPrefix(w[0], "t") {
-			return 0, nil, fmt.Errorf("bad op line %q", l)
+			return 0, false, nil, fmt.Errorf("bad op line %q", l)
 		}
 		c.thr, _ = strconv.Atoi(w[0][1:])
 		c.sleepUs, _ = strconv.Atoi(w[1])
@@ -438,11 +520,11 @@ func parseCase(lines []string) (capc int, calls []*call, err error) {
 			c.handle, _ = strconv.Atoi(w[3])
 			c.parkUs, _ = strconv.Atoi(w[4])
 		default:
-			return 0, nil, fmt.Errorf("bad op line %q", l)
+			return 0, false, nil, fmt.Errorf("bad op line %q", l)
 		}
 		calls = append(calls, c)
 	}
-	return capc, calls, nil
+	return capc, val, calls, nil
 }
 
 func mkCtx(us int) (context.Context, context.CancelFunc) {
@@ -527,12 +609,18 @@ func timerDisc() string {
 }
 
 func runCase(lines []string) []string {
-	capc, calls, err := parseCase(lines)
+	capc, val, calls, err := parseCase(lines)
 	if err != nil {
 		return []string{fmt.Sprintf("%s => bad-case %s", lines[0], strings.ReplaceAll(err.Error(), " ", "_"))}
 	}
-	var q *queue.DelayQueue[*elem]
-	if p := vlib.Catch(func() { q = queue.NewDelayQueue[*elem](capc) }); p != "" {
+	var q dq
+	if p := vlib.Catch(func() {
+		if val {
+			q = valQ{queue.NewDelayQueue[velem](capc)}
+		} else {
+			q = ptrQ{queue.NewDelayQueue[*elem](capc)}
+		}
+	}); p != "" {
 		return []string{fmt.Sprintf("%s => %s", lines[0], p)}
 	}
 	out := []string{fmt.Sprintf("%s => ok cap=%d disc=%s", lines[0], q.VerifCap(), timerDisc())}
@@ -540,7 +628,13 @@ func runCase(lines []string) []string {
 	jit.add(&jmax)
 	defer jit.del(&jmax)
 	t0 := time.Now()
-	us := func(t time.Time) int64 { return int64(t.Sub(t0)/time.Microsecond) + epochShiftUs }
+	us := func(t time.Time) int64 {
+		v := int64(t.Sub(t0)/time.Microsecond) + epochShiftUs
+		if v < 0 { // only the deadline of velem{} (the process start) in a process older than 1000 s
+			v = 0
+		}
+		return v
+	}
 	var seq atomic.Int64
 	var mu sync.Mutex // protects the `done` flags against the watchdog's read
 	type handle struct {
@@ -612,12 +706,16 @@ func runCase(lines []string) []string {
 				var tinv, tres time.Time
 				p := vlib.Catch(func() {
 					if c.kind == "enq" {
-						e := &elem{id: c.id, deadline: t0.Add(time.Duration(c.offUs) * time.Microsecond)}
+						deadline := t0.Add(time.Duration(c.offUs) * time.Microsecond)
 						dl = int64(c.offUs) + epochShiftUs
+						if val && c.id == 0 { // velem{}: the offset of the ops line does not apply
+							deadline = zeroDeadline()
+							dl = us(deadline)
+						}
 						sinv = seq.Add(1)
 						tinv = time.Now()
 						invoked()
-						err := q.Enqueue(ctx, e)
+						err := q.Enqueue(ctx, c.id, deadline)
 						tres = time.Now()
 						sres = seq.Add(1)
 						res = errTok(err)
@@ -625,19 +723,19 @@ func runCase(lines []string) []string {
 						sinv = seq.Add(1)
 						tinv = time.Now()
 						invoked()
-						e, err := q.Dequeue(ctx)
+						id, deadline, r, isNil, err := q.Dequeue(ctx)
 						tres = time.Now()
-						if err == nil && e != nil {
-							rem = int64(e.Delay())
+						if err == nil && !isNil {
+							rem = r
 						}
 						sres = seq.Add(1)
 						res = errTok(err)
 						if err == nil {
-							if e == nil {
+							if isNil {
 								res = "ok:nil"
 							} else {
-								res = "ok:" + strconv.Itoa(e.id)
-								dl = us(e.deadline)
+								res = "ok:" + strconv.Itoa(id)
+								dl = us(deadline)
 							}
 						}
 					}
@@ -717,10 +815,14 @@ func runCase(lines []string) []string {
 				free = 0
 			}
 			fill := 0
+			probeBase := t0 // the probe elements are earlier than everything the scenario enqueued,
+			if val {        // velem{} (deadline = process start) included
+				probeBase = procEpoch
+			}
 			put := func(ctxUs int) bool {
 				ctx, cancel := mkCtx(ctxUs)
 				defer cancel()
-				return q.Enqueue(ctx, &elem{id: 900000 + fill, deadline: t0.Add(-50 * time.Second)}) == nil
+				return q.Enqueue(ctx, 900000+fill, probeBase.Add(-50*time.Second)) == nil
 			}
 			if finallen >= 0 {
 				for i := 0; i < free; i++ {
@@ -738,19 +840,19 @@ func runCase(lines []string) []string {
 				}
 			}
 			ctx, cancel := mkCtx(3000)
-			extra := errTok(q.Enqueue(ctx, &elem{id: 999999, deadline: t0.Add(-60 * time.Second)}))
+			extra := errTok(q.Enqueue(ctx, 999999, probeBase.Add(-60*time.Second)))
 			cancel()
 			// the `fill` probe elements expired long ago and are the earliest of all: exactly that many
 			// Dequeues must succeed (no trailing Dequeue that would have to time out)
 			var drained []int
 			for i := 0; i < fill; i++ {
 				ctx, cancel := mkCtx(probeCtxUs)
-				e, err := q.Dequeue(ctx)
+				id, _, _, isNil, err := q.Dequeue(ctx)
 				cancel()
-				if err != nil || e == nil {
+				if err != nil || isNil {
 					break
 				}
-				drained = append(drained, e.id)
+				drained = append(drained, id)
 			}
 			if finallen >= 0 {
 				s += fmt.Sprintf(" free=%d", free)
